@@ -711,3 +711,162 @@ Proof.
   intros [(e & H & Hne)|H]; [left|right; exact H].
   destruct (log_entries_err _ _ _ _ H) as [->| ->]; [exact H|congruence].
 Qed.
+
+(* ------------------------------------------------------------------ *)
+(* 7. resuming replication after a snapshot *)
+
+(* the progress after a snapshot status report *)
+Definition resumed_pr (pr : progress) (failure : bool) : progress :=
+  mkPr (matched pr)
+       (if failure then matched pr + 1 else N.max (matched pr + 1) (pending_snapshot pr + 1))
+       Probe true 0 0 (recent_active pr) (Inflights.reset (ins pr))
+       (commit_group_id pr) (Progress.committed_index pr).
+
+Theorem snapshot_resume r m :
+  handle_snapshot_status r m =
+  Ok (match get_pr r (m_from m) with
+      | None => r
+      | Some pr =>
+          match pr_state pr with
+          | Snapshot => put_pr r (m_from m) (resumed_pr pr (m_reject m))
+          | _ => r
+          end
+      end).
+Proof.
+  unfold handle_snapshot_status. destruct (get_pr r (m_from m)) as [pr|]; [|reflexivity].
+  destruct (pr_state pr) eqn:Es; cbn [pstate_eqb negb]; try reflexivity.
+  unfold resumed_pr. destruct (m_reject m).
+  - unfold become_probe, snapshot_failure. cbn [pr_state set_pending_snapshot]. rewrite Es.
+    cbn. rewrite N.max_l by lia. reflexivity.
+  - unfold become_probe. rewrite Es. reflexivity.
+Qed.
+
+(* through step: MsgSnapStatus is a local message (term 0) handled by the leader only *)
+Theorem snapshot_resume_step r m :
+  m_type m = MsgSnapStatus -> m_term m = 0 -> r_state r = Leader ->
+  step r m = (r' <- handle_snapshot_status r m ;; Ok (r', E_OK)).
+Proof.
+  intros Ht H0 Hl. unfold step. rewrite H0. change (0 =? 0) with true. cbn [bind].
+  rewrite Ht, Hl.
+  change (MsgSnapStatus =? MsgHup) with false.
+  change (MsgSnapStatus =? MsgRequestVote) with false.
+  change (MsgSnapStatus =? MsgRequestPreVote) with false.
+  cbn [orb]. unfold step_leader. rewrite Ht.
+  change (MsgSnapStatus =? MsgBeat) with false.
+  change (MsgSnapStatus =? MsgCheckQuorum) with false.
+  change (MsgSnapStatus =? MsgPropose) with false.
+  change (MsgSnapStatus =? MsgReadIndex) with false.
+  change (MsgSnapStatus =? MsgAppendResponse) with false.
+  change (MsgSnapStatus =? MsgHeartbeatResponse) with false.
+  change (MsgSnapStatus =? MsgSnapStatus) with true.
+  reflexivity.
+Qed.
+
+Theorem snapshot_status_nonleader r m :
+  m_type m = MsgSnapStatus -> m_term m = 0 -> r_state r <> Leader -> step r m = Ok (r, E_OK).
+Proof.
+  intros Ht H0 Hl. unfold step. rewrite H0. change (0 =? 0) with true. cbn [bind].
+  rewrite Ht.
+  change (MsgSnapStatus =? MsgHup) with false.
+  change (MsgSnapStatus =? MsgRequestVote) with false.
+  change (MsgSnapStatus =? MsgRequestPreVote) with false.
+  cbn [orb]. destruct (r_state r); try congruence;
+    unfold step_candidate, step_follower; rewrite Ht; reflexivity.
+Qed.
+
+(* the part of handle_append_response that follows the progress update of a
+   successful, advancing acknowledgement (verbatim tail of the model function) *)
+Definition ack_tail (r : raft) (m : msg) (old_paused : bool) : Res raft :=
+  x <- maybe_commit r ;;
+  let '(r1, cmt) := x in
+  r2 <- (if cmt then (if should_bcast_commit r1 then bcast_append r1 else Ok r1)
+         else if old_paused then send_append_to r1 (m_from m) else Ok r1) ;;
+  r3 <- send_append_aggressively r2 (m_from m) ;;
+  match r_lead_transferee r3 with
+  | Some t =>
+      if t =? m_from m then
+        match get_pr r3 (m_from m) with
+        | None => Panic site_pr_unwrap
+        | Some p => if matched p =? last_index (r_log r3) then send_timeout_now r3 (m_from m)
+                    else Ok r3
+        end
+      else Ok r3
+  | None => Ok r3
+  end.
+
+(* progress of a peer in Snapshot state after an acknowledgement of [idx] *)
+Definition acked_snapshot_pr (pr0 : progress) (cmt idx : N) : progress :=
+  let ci := if Progress.committed_index pr0 <? cmt then cmt else Progress.committed_index pr0 in
+  if pending_snapshot pr0 <=? idx then
+    (* caught up: probe right after the acknowledged index *)
+    mkPr idx (idx + 1) Probe false 0 (pending_request_snapshot pr0) true
+         (Inflights.reset (ins pr0)) (commit_group_id pr0) ci
+  else
+    (* still waiting for the snapshot to be applied *)
+    mkPr idx (N.max (next_idx pr0) (idx + 1)) Snapshot false (pending_snapshot pr0)
+         (pending_request_snapshot pr0) true (ins pr0) (commit_group_id pr0) ci.
+
+Lemma acked_snapshot_pr_eq pr0 cmt idx :
+  pr_state pr0 = Snapshot -> matched pr0 < idx ->
+  let pr := update_committed (set_recent_active pr0 true) cmt in
+  exists p1, maybe_update pr idx = (p1, true) /\ is_paused pr = true /\ pr_state p1 = Snapshot /\
+    (if is_snapshot_caught_up p1 then become_probe p1 else p1) = acked_snapshot_pr pr0 cmt idx.
+Proof.
+  intros Hs Hm. destruct pr0 as [ma ne st pa ps prs ra inn cg ci]. cbn in Hs, Hm. subst st.
+  cbn zeta.
+  set (pr := update_committed (set_recent_active (mkPr ma ne Snapshot pa ps prs ra inn cg ci) true) cmt).
+  exists (fst (maybe_update pr idx)).
+  assert (Hpr : pr = mkPr ma ne Snapshot pa ps prs true inn cg (if ci <? cmt then cmt else ci)).
+  { subst pr. unfold update_committed, set_recent_active. cbn [Progress.committed_index].
+    destruct (ci <? cmt); reflexivity. }
+  unfold acked_snapshot_pr. cbn [Progress.committed_index pending_snapshot ins
+    pending_request_snapshot commit_group_id next_idx].
+  rewrite Hpr. clear Hpr pr. generalize (if ci <? cmt then cmt else ci). intros ci'.
+  unfold maybe_update. cbn [matched]. destruct (ma <? idx) eqn:E1; [|lia].
+  unfold resume, set_matched, set_paused. cbn -[N.max].
+  destruct (ne <? idx + 1) eqn:E3; cbn -[N.max].
+  - split; [reflexivity|]. split; [reflexivity|]. split; [reflexivity|].
+    unfold is_snapshot_caught_up, become_probe. cbn -[N.max].
+    destruct (ps <=? idx) eqn:E4; cbn -[N.max].
+    + replace (N.max (idx + 1) (ps + 1)) with (idx + 1) by lia. reflexivity.
+    + replace (N.max ne (idx + 1)) with (idx + 1) by lia. reflexivity.
+  - split; [reflexivity|]. split; [reflexivity|]. split; [reflexivity|].
+    unfold is_snapshot_caught_up, become_probe. cbn -[N.max].
+    destruct (ps <=? idx) eqn:E4; cbn -[N.max].
+    + replace (N.max (idx + 1) (ps + 1)) with (idx + 1) by lia. reflexivity.
+    + replace (N.max ne (idx + 1)) with ne by lia. reflexivity.
+Qed.
+
+Theorem snapshot_ack r m pr0 :
+  get_pr r (m_from m) = Some pr0 -> pr_state pr0 = Snapshot -> m_reject m = false ->
+  (matched pr0 < m_index m ->
+   handle_append_response r m =
+   ack_tail (put_pr r (m_from m) (acked_snapshot_pr pr0 (m_commit m) (m_index m))) m true) /\
+  (m_index m <= matched pr0 ->
+   exists pr1, handle_append_response r m = Ok (put_pr r (m_from m) pr1) /\
+     pr_state pr1 = Snapshot /\ pending_snapshot pr1 = pending_snapshot pr0 /\
+     matched pr1 = matched pr0).
+Proof.
+  intros Hg Hs Hr. unfold handle_append_response. rewrite Hr. cbn [andb bind]. rewrite Hg.
+  split; intros Hm.
+  - destruct (acked_snapshot_pr_eq pr0 (m_commit m) (m_index m) Hs Hm) as (p1 & A & B & C0 & D).
+    rewrite A. cbn [negb]. rewrite C0. cbn [bind]. rewrite D, B. reflexivity.
+  - unfold maybe_update.
+    assert (E1 : (matched (update_committed (set_recent_active pr0 true) (m_commit m)) <? m_index m)
+                 = false).
+    { unfold update_committed. destruct (_ <? m_commit m); cbn; lia. }
+    rewrite E1. cbn [negb]. eexists. split; [reflexivity|].
+    unfold update_committed. destruct (_ <? m_commit m); destruct (_ <? m_index m + 1); cbn; auto.
+Qed.
+
+(* Progress level: is_snapshot_caught_up => Probe right after [matched] *)
+Lemma caught_up_probe pr :
+  is_snapshot_caught_up pr = true ->
+  pr_state (become_probe pr) = Probe /\ next_idx (become_probe pr) = matched pr + 1 /\
+  pending_snapshot (become_probe pr) = 0 /\ matched (become_probe pr) = matched pr /\
+  is_paused (become_probe pr) = false.
+Proof.
+  unfold is_snapshot_caught_up. intros H. apply andb_prop in H. destruct H as [H1 H2].
+  unfold become_probe. destruct (pr_state pr); try discriminate. cbn.
+  repeat split; try reflexivity. lia.
+Qed.
